@@ -19,9 +19,14 @@ import (
 	"io"
 	"math/rand"
 	"os"
+	"os/signal"
 	"path/filepath"
 	"runtime"
+	"runtime/debug"
+	"sort"
+	"strconv"
 	"sync"
+	"syscall"
 	"time"
 
 	"github.com/rogpeppe/go-internal/cache"
@@ -58,6 +63,41 @@ type request struct {
 	Proc     int   `json:"proc,omitempty"`
 	// Shared: the clients / goroutines use ONE *cache.Cache value instead of one each
 	Shared bool `json:"shared,omitempty"`
+	// API selects the entry point of "put": put (default) | putbytes | putnoverify
+	API string `json:"api,omitempty"`
+	// history: the steps run one after the other; Reuse: on ONE *cache.Cache value (else a fresh one per step)
+	Steps []histStep `json:"steps,omitempty"`
+	Reuse bool       `json:"reuse,omitempty"`
+	// repeat: the call Steps[0] is made N times with at most Nofile descriptors to spare
+	N      int `json:"n,omitempty"`
+	Nofile int `json:"nofile,omitempty"`
+}
+
+// histStep is one Put of a history.
+type histStep struct {
+	API    string    `json:"api,omitempty"` // put | putbytes | putnoverify | getbytes | getfile | get
+	ID     string    `json:"id"`
+	Data   string    `json:"data,omitempty"`
+	Reader string    `json:"reader,omitempty"`
+	R      int       `json:"r,omitempty"`
+	Plan   *planSpec `json:"plan,omitempty"`
+	Fsize  int64     `json:"fsize,omitempty"` // > 0: RLIMIT_FSIZE is Fsize-1 bytes during the step
+}
+
+type stepRes struct {
+	Res     string      `json:"res"`
+	Err     string      `json:"err,omitempty"`
+	Out     string      `json:"out,omitempty"`
+	Size    int64       `json:"size"`
+	Log     any         `json:"log,omitempty"`
+	Seek1   bool        `json:"seek1"`
+	Pass1N  int         `json:"pass1n"`
+	Ok1     bool        `json:"ok1"`
+	Seek2   bool        `json:"seek2"`
+	Seeks   int         `json:"seeks"`
+	Pass2   []int       `json:"pass2,omitempty"`
+	FdLeak  string      `json:"fdleak,omitempty"`
+	Lookups []lookupRes `json:"lookups,omitempty"` // all ids, through a fresh Cache value, after the step
 }
 
 type lookupRes struct {
@@ -87,6 +127,97 @@ type response struct {
 	Shimmed bool           `json:"shimmed"`
 	Viol    []string       `json:"viol,omitempty"`
 	Counts  map[string]int `json:"counts,omitempty"`
+	FdLeak  string         `json:"fdleak,omitempty"` // descriptors open after the call that were not open before it
+	Hist    []stepRes      `json:"hist,omitempty"`
+	Reused  []lookupRes    `json:"reused,omitempty"` // final lookups through the Cache value the history used
+	Before  []lookupRes    `json:"before,omitempty"`
+	NfdA    int            `json:"nfda,omitempty"`
+	NfdB    int            `json:"nfdb,omitempty"`
+}
+
+// ---- descriptors as a resource: every API call must leave the process with the descriptors it
+// had.  The set of open descriptors is read from /proc/self/fd before and after the call, with
+// the collector switched off in between (debug.SetGCPercent(-1) returns only when no collection
+// is running), so that a descriptor which only a finalizer would close counts as leaked.
+
+// keepLeaks: leaked descriptors stay open (the exhaustion runs need them to add up)
+var keepLeaks bool
+
+func fdSet() map[int]string {
+	out := map[int]string{}
+	d, err := os.Open("/proc/self/fd")
+	if err != nil {
+		return nil
+	}
+	names, _ := d.Readdirnames(-1)
+	self := int(d.Fd())
+	for _, n := range names {
+		k, err := strconv.Atoi(n)
+		if err != nil || k == self {
+			continue
+		}
+		t, err := os.Readlink("/proc/self/fd/" + n)
+		if err != nil {
+			continue // closed meanwhile
+		}
+		out[k] = t
+	}
+	d.Close()
+	return out
+}
+
+// fdNames lists the descriptor numbers of the process (the one used for listing excluded).
+func fdNames() []string {
+	d, err := os.Open("/proc/self/fd")
+	if err != nil {
+		return nil
+	}
+	names, _ := d.Readdirnames(-1)
+	self := strconv.Itoa(int(d.Fd()))
+	d.Close()
+	out := names[:0]
+	for _, n := range names {
+		if n != self {
+			out = append(out, n)
+		}
+	}
+	return out
+}
+
+// fdProbe runs f and describes the descriptors that are open afterwards and were not before
+// ("" = none, or /proc is not available).  A panic of f passes through.  The collector is off
+// for the whole command (gcOff in main), so nothing but f itself can close a descriptor.
+func fdProbe(f func()) (leak string) {
+	defer func() {
+		if leak != "" && !keepLeaks {
+			ctlCloseLeaked()
+		}
+	}()
+	before := fdNames()
+	f()
+	if before == nil {
+		return ""
+	}
+	after := fdNames()
+	had := map[string]bool{}
+	for _, n := range before {
+		had[n] = true
+	}
+	var extra []string
+	for _, n := range after {
+		if !had[n] {
+			t, err := os.Readlink("/proc/self/fd/" + n)
+			if err != nil {
+				continue
+			}
+			extra = append(extra, fmt.Sprintf("%s->%s", n, filepath.Base(t)))
+		}
+	}
+	if len(extra) == 0 {
+		return ""
+	}
+	sort.Strings(extra)
+	return fmt.Sprintf("%d descriptors before the call, %d after it; new: %v", len(before), len(after), extra)
 }
 
 func unhex(s string) []byte {
@@ -205,32 +336,164 @@ func openCache() *cache.Cache {
 	return c
 }
 
-func doPut(req *request) (resp response) {
-	c := openCache()
-	src := &srcReader{data: unhex(req.Data), spec: req.Reader, r: req.R}
+// putCall makes one Put-like call on c and fills the step result; crash = the shim stopped the "process".
+func putCall(c *cache.Cache, st *histStep) (sr stepRes) {
+	src := &srcReader{data: unhex(st.Data), spec: st.Reader, r: st.R}
 	if src.spec == "" {
 		src.spec = "honest"
 	}
-	ctlReset(req.Plan)
+	ctlReset(st.Plan)
+	if st.Fsize > 0 {
+		var old syscall.Rlimit
+		if syscall.Getrlimit(syscall.RLIMIT_FSIZE, &old) == nil {
+			lim := old
+			lim.Cur = uint64(st.Fsize - 1)
+			if syscall.Setrlimit(syscall.RLIMIT_FSIZE, &lim) == nil {
+				defer syscall.Setrlimit(syscall.RLIMIT_FSIZE, &old)
+			}
+		}
+	}
 	defer func() {
 		if v := recover(); v != nil {
 			if ctlIsCrash(v) {
-				resp.Res = "crash"
+				sr.Res = "crash"
 			} else {
-				resp.Res = "panic"
-				resp.Err = fmt.Sprint(v)
+				sr.Res = "panic"
+				sr.Err = fmt.Sprint(v)
 			}
 		}
-		resp.Log = ctlLog()
-		resp.Seek1, resp.Pass1N, resp.Ok1, resp.Seek2, resp.Pass2, resp.Seeks = src.seek1, src.pass1n, src.ok1, src.seek2, src.pass2, src.seeks
+		sr.Log = ctlLog()
+		sr.Seek1, sr.Pass1N, sr.Ok1, sr.Seek2, sr.Pass2, sr.Seeks = src.seek1, src.pass1n, src.ok1, src.seek2, src.pass2, src.seeks
 		ctlReset(nil)
 	}()
-	out, size, err := c.Put(actionID(req.ID), src)
-	resp.Out, resp.Size = hex.EncodeToString(out[:]), size
-	if err != nil {
-		resp.Res, resp.Err = "err", err.Error()
-	} else {
-		resp.Res = "ok"
+	id := actionID(st.ID)
+	sr.FdLeak = fdProbe(func() {
+		var out cache.OutputID
+		var size int64
+		var err error
+		switch st.API {
+		case "putbytes":
+			err = c.PutBytes(id, src.data)
+			out, size = sha256.Sum256(src.data), int64(len(src.data))
+		case "putnoverify":
+			out, size, err = c.PutNoVerify(id, src)
+		case "getbytes":
+			_, _, err = c.GetBytes(id)
+		case "getfile":
+			_, _, err = c.GetFile(id)
+		case "get":
+			_, err = c.Get(id)
+		default:
+			out, size, err = c.Put(id, src)
+		}
+		sr.Out, sr.Size = hex.EncodeToString(out[:]), size
+		if err != nil {
+			sr.Res, sr.Err = "err", err.Error()
+		} else {
+			sr.Res = "ok"
+		}
+	})
+	return
+}
+
+func doPut(req *request) (resp response) {
+	sr := putCall(openCache(), &histStep{API: req.API, ID: req.ID, Data: req.Data, Reader: req.Reader, R: req.R, Plan: req.Plan})
+	resp.Res, resp.Err, resp.Out, resp.Size, resp.Log, resp.FdLeak = sr.Res, sr.Err, sr.Out, sr.Size, sr.Log, sr.FdLeak
+	resp.Seek1, resp.Pass1N, resp.Ok1, resp.Seek2, resp.Pass2, resp.Seeks = sr.Seek1, sr.Pass1N, sr.Ok1, sr.Seek2, sr.Pass2, sr.Seeks
+	return
+}
+
+// doHistory runs the steps one after the other, on one Cache value (Reuse) or on a fresh one per
+// step; after every step all ids are looked up through a fresh Cache value, at the end also
+// through the value the history used.  A stop of the "process" ends the history.
+func doHistory(req *request) (resp response) {
+	ctlReset(nil)
+	var c *cache.Cache
+	if req.Reuse {
+		c = openCache()
+	}
+	look := func(cc *cache.Cache) []lookupRes {
+		ctlReset(nil)
+		var ls []lookupRes
+		for _, id := range req.IDs {
+			ls = append(ls, lookup(cc, id))
+		}
+		return ls
+	}
+	resp.Before = look(openCache())
+	for i := range req.Steps {
+		cc := c
+		if cc == nil {
+			cc = openCache()
+		}
+		sr := putCall(cc, &req.Steps[i])
+		sr.Lookups = look(openCache())
+		resp.Hist = append(resp.Hist, sr)
+		if sr.Res == "crash" || sr.Res == "panic" {
+			break
+		}
+	}
+	if c != nil {
+		resp.Reused = look(c)
+	}
+	resp.Res = "ok"
+	return
+}
+
+// doRepeat: a victim entry is stored and read back; then, with the collector off and at most
+// Nofile descriptors to spare (RLIMIT_NOFILE lowered), the call Steps[0] is made N times on one
+// Cache value; then the victim is looked up again through that value.
+func doRepeat(req *request) (resp response) {
+	ctlReset(nil)
+	c := openCache()
+	victim := req.ID
+	if err := c.PutBytes(actionID(victim), unhex(req.Data)); err != nil {
+		resp.Res, resp.Err = "err", "storing the victim entry failed: "+err.Error()
+		return
+	}
+	ctlReset(nil)
+	resp.Before = []lookupRes{lookup(c, victim)}
+	old := debug.SetGCPercent(-1)
+	defer debug.SetGCPercent(old)
+	before := fdSet()
+	resp.NfdB = len(before)
+	var lim syscall.Rlimit
+	lowered := false
+	if before != nil && syscall.Getrlimit(syscall.RLIMIT_NOFILE, &lim) == nil {
+		maxfd := 0
+		for k := range before {
+			if k > maxfd {
+				maxfd = k
+			}
+		}
+		nl := lim
+		nl.Cur = uint64(maxfd + 1 + req.Nofile)
+		if nl.Cur < lim.Cur && syscall.Setrlimit(syscall.RLIMIT_NOFILE, &nl) == nil {
+			lowered = true
+		}
+	}
+	keepLeaks = true
+	defer func() { keepLeaks = false; ctlCloseLeaked() }()
+	for i := 0; i < req.N && len(req.Steps) > 0; i++ {
+		st := req.Steps[0]
+		sr := putCall(c, &st)
+		if i == 0 || i == req.N-1 {
+			sr.Log = nil
+			resp.Hist = append(resp.Hist, sr)
+		}
+		if sr.Res == "crash" || sr.Res == "panic" {
+			break
+		}
+	}
+	ctlReset(nil)
+	resp.Lookups = []lookupRes{lookup(c, victim)}
+	if lowered {
+		syscall.Setrlimit(syscall.RLIMIT_NOFILE, &lim)
+	}
+	resp.NfdA = len(fdSet())
+	resp.Res = "ok"
+	if !lowered {
+		resp.Err = "RLIMIT_NOFILE could not be lowered"
 	}
 	return
 }
@@ -246,14 +509,21 @@ func lookup(c *cache.Cache, idhex string) (lr lookupRes) {
 		}()
 		return f()
 	}
-	lr.Get = safely(func() string {
+	probed := func(call string, f func() string) string {
+		var r string
+		if leak := fdProbe(func() { r = safely(f) }); leak != "" {
+			lr.Oracle = append(lr.Oracle, "fd-baseline: "+call+" left descriptors open: "+leak)
+		}
+		return r
+	}
+	lr.Get = probed("Get", func() string {
 		e, err := c.Get(id)
 		if err != nil {
 			return "NF"
 		}
 		return "F " + showEntry(e)
 	})
-	lr.GetBytes = safely(func() string {
+	lr.GetBytes = probed("GetBytes", func() string {
 		b, e, err := c.GetBytes(id)
 		if err != nil {
 			return "NF"
@@ -263,7 +533,7 @@ func lookup(c *cache.Cache, idhex string) (lr lookupRes) {
 		}
 		return "F " + showBytes(b) + " " + showEntry(e)
 	})
-	lr.GetFile = safely(func() string {
+	lr.GetFile = probed("GetFile", func() string {
 		file, e, err := c.GetFile(id)
 		if err != nil {
 			return "NF"
@@ -377,7 +647,9 @@ func doConc(req *request) (resp response) {
 			}
 		})
 	}
-	chosen, err := ctlRunScheduled(fns, req.Schedule)
+	var chosen []int
+	var err error
+	resp.FdLeak = fdProbe(func() { chosen, err = ctlRunScheduled(fns, req.Schedule) })
 	resp.Results, resp.Chosen, resp.Log, resp.Spans = results, chosen, ctlLog(), spans
 	resp.Res = "ok"
 	if err != nil {
@@ -536,6 +808,16 @@ func main() {
 	} else {
 		runtime.GOMAXPROCS(runtime.NumCPU())
 	}
+	// a write beyond RLIMIT_FSIZE must fail with EFBIG, not kill the process
+	signal.Ignore(syscall.SIGXFSZ)
+	// the runtime's own descriptors (poller) exist before the first probe
+	if f, err := os.Open(os.DevNull); err == nil {
+		f.Close()
+	}
+	if d, err := os.Open("/proc/self/fd"); err == nil {
+		d.Readdirnames(-1)
+		d.Close()
+	}
 	in := bufio.NewReaderSize(os.Stdin, 1<<20)
 	out := bufio.NewWriter(os.Stdout)
 	enc := json.NewEncoder(out)
@@ -553,6 +835,12 @@ func main() {
 							resp = response{Res: "panic", Err: fmt.Sprint(v)}
 						}
 					}()
+					if req.Cmd != "stress" {
+						// no collection while a command runs: a descriptor only a finalizer would close is a
+						// leak (SetGCPercent(-1) returns when no collection is in progress)
+						old := debug.SetGCPercent(-1)
+						defer debug.SetGCPercent(old)
+					}
 					switch req.Cmd {
 					case "open":
 						dir = req.Dir
@@ -561,7 +849,8 @@ func main() {
 					case "op":
 						// one API call on the handle opened by "open", with the operations it performed
 						ctlReset(nil)
-						r := runClientOp(curCache, clientOp{Op: req.Reader, ID: req.ID, Data: req.Data})
+						var r string
+						resp.FdLeak = fdProbe(func() { r = runClientOp(curCache, clientOp{Op: req.Reader, ID: req.ID, Data: req.Data}) })
 						resp.Results = [][]string{{r}}
 						resp.Log = ctlLog()
 						ctlReset(nil)
@@ -570,6 +859,10 @@ func main() {
 						resp = doPut(&req)
 					case "lookups":
 						resp = doLookups(&req)
+					case "history":
+						resp = doHistory(&req)
+					case "repeat":
+						resp = doRepeat(&req)
 					case "conc":
 						resp = doConc(&req)
 					case "stress":
